@@ -107,6 +107,8 @@ func denseBinS(op string, a *tensor.Dense, s interface{}, left bool, o []tensor.
 	return nil, fmt.Errorf("no method form")
 }
 
+func hasMethodForm(op string) bool { return op != "min" && op != "max" }
+
 type unF func(a tensor.Tensor, opts ...tensor.FuncOpt) (tensor.Tensor, error)
 
 var unFuncs = map[string]unF{
@@ -118,7 +120,7 @@ func init() {
 	progOps["bin"] = func(w *world, f []string) string {
 		a, b := w.ts[atoi(f[2])], w.ts[atoi(f[3])]
 		o := w.opts(f[4], false)
-		if len(f) > 5 && f[5] == "method" {
+		if (len(f) > 5 && f[5] == "method") != w.alt && hasMethodForm(f[1]) {
 			if r, err := denseBin(f[1], a, b, o); err != nil || r != nil {
 				if err != nil {
 					return "err"
@@ -134,7 +136,7 @@ func init() {
 		s := tokVal(w.dt, atoi(f[3]))
 		o := w.opts(f[5], false)
 		left := f[4] == "left"
-		if len(f) > 6 && f[6] == "method" {
+		if (len(f) > 6 && f[6] == "method") != w.alt && hasMethodForm(f[1]) {
 			r, err := denseBinS(f[1], t, s, left, o)
 			if err != nil {
 				return "err"
@@ -150,7 +152,7 @@ func init() {
 	progOps["cmp"] = func(w *world, f []string) string {
 		a, b := w.ts[atoi(f[2])], w.ts[atoi(f[3])]
 		o := w.opts(f[5], f[4] == "same")
-		if len(f) > 6 && f[6] == "method" {
+		if (len(f) > 6 && f[6] == "method") != w.alt {
 			r, err := denseBin(f[1], a, b, o)
 			if err != nil {
 				return "err"
@@ -165,7 +167,7 @@ func init() {
 		s := tokVal(w.dt, atoi(f[3]))
 		o := w.opts(f[6], f[5] == "same")
 		left := f[4] == "left"
-		if len(f) > 7 && f[7] == "method" {
+		if (len(f) > 7 && f[7] == "method") != w.alt {
 			r, err := denseBinS(f[1], t, s, left, o)
 			if err != nil {
 				return "err"
@@ -185,7 +187,11 @@ func init() {
 		var err error
 		switch f[1] {
 		case "sum":
-			r, err = tensor.Sum(a, axes...)
+			if w.alt {
+				r, err = a.Sum(axes...)
+			} else {
+				r, err = tensor.Sum(a, axes...)
+			}
 		case "min":
 			r, err = a.Min(axes...)
 		case "max":
@@ -223,10 +229,15 @@ func init() {
 		a := w.ts[atoi(f[2])]
 		var r tensor.Tensor
 		var err error
-		if f[1] == "max" {
+		switch {
+		case f[1] == "max" && !w.alt:
 			r, err = tensor.Argmax(a, atoi(f[3]))
-		} else {
+		case f[1] == "max":
+			r, err = a.Argmax(atoi(f[3]))
+		case !w.alt:
 			r, err = tensor.Argmin(a, atoi(f[3]))
+		default:
+			r, err = a.Argmin(atoi(f[3]))
 		}
 		return w.ret(r, err)
 	}
@@ -236,6 +247,18 @@ func init() {
 		o := w.opts(f[4], false)
 		var r *tensor.Dense
 		var err error
+		if w.alt {
+			var rt tensor.Tensor
+			switch f[1] {
+			case "matmul":
+				rt, err = tensor.MatMul(a, b, o...)
+			case "matvec":
+				rt, err = tensor.MatVecMul(a, b, o...)
+			case "outer":
+				rt, err = tensor.Outer(a, b, o...)
+			}
+			return w.ret(rt, err)
+		}
 		switch f[1] {
 		case "matmul":
 			r, err = a.MatMul(b, o...)
@@ -251,6 +274,9 @@ func init() {
 	}
 	// tmul:<a>:<b>:<axesA>:<axesB> : Dense.TensorMul (general contraction); the axes slices are copies
 	progOps["tmul"] = func(w *world, f []string) string {
+		if w.alt {
+			return w.ret(tensor.Contract(w.ts[atoi(f[1])], w.ts[atoi(f[2])], ints(f[3]), ints(f[4])))
+		}
 		r, err := w.ts[atoi(f[1])].TensorMul(w.ts[atoi(f[2])], ints(f[3]), ints(f[4]))
 		if err != nil {
 			return "err"
@@ -258,7 +284,13 @@ func init() {
 		return w.newOrSame(r)
 	}
 	progOps["inner"] = func(w *world, f []string) string {
-		v, err := w.ts[atoi(f[1])].Inner(w.ts[atoi(f[2])])
+		var v interface{}
+		var err error
+		if w.alt {
+			v, err = tensor.Inner(w.ts[atoi(f[1])], w.ts[atoi(f[2])])
+		} else {
+			v, err = w.ts[atoi(f[1])].Inner(w.ts[atoi(f[2])])
+		}
 		if err != nil {
 			return "err"
 		}
@@ -324,6 +356,9 @@ func init() {
 		return w.newOrSame(r)
 	}
 	progOps["repeat"] = func(w *world, f []string) string {
+		if w.alt {
+			return w.ret(w.ts[atoi(f[1])].Repeat(atoi(f[2]), ints(f[3])...))
+		}
 		r, err := tensor.Repeat(w.ts[atoi(f[1])], atoi(f[2]), ints(f[3])...)
 		return w.ret(r, err)
 	}
